@@ -44,3 +44,100 @@ stub_Iface *stub_choke_good(int method, int kind) {
 int stub_entry_good(int m, int kind) { stub_Iface *s = stub_choke_good(m, kind); int r = s->Run(); delete s; return r; }
 int stub_entry_bad(int m, int kind) { stub_Iface *s = stub_factory_bad(m, kind); int r = s->Run(); delete s; return r; }
 }  // namespace verif_control
+
+// ---- PREDSIG controls ---------------------------------------------------------------------------------
+#include <cstdint>
+#include <vector>
+namespace verif_control {
+struct ps_Transform {
+  void ComputeCorrection(const int *orig, const int *pred, int *out) const { out[0] = orig[0] - pred[0]; }
+  void ComputeOriginalValue(const int *pred, const int *corr, int *out) const { out[0] = pred[0] + corr[0]; }
+};
+void ps_Neighbour(int i, const int *data, int *out);
+// bad pair: the encoder sums in 64 bits, the decoder in 32
+struct ps_BadPredictionSchemeEncoder {
+  ps_Transform t;
+  bool ComputeCorrectionValues(const int *in, int *corr, int n) {
+    std::vector<int> pred(1), nb(1);
+    for (int i = n - 1; i > 0; --i) {
+      int64_t sum = 0;
+      for (int j = 0; j < 2; ++j) { ps_Neighbour(i - j, in, nb.data()); sum += nb[0]; }
+      pred[0] = static_cast<int>(sum / 2);
+      t.ComputeCorrection(in + i, pred.data(), corr + i);
+    }
+    return true;
+  }
+};
+struct ps_BadPredictionSchemeDecoder {
+  ps_Transform t;
+  bool ComputeOriginalValues(const int *corr, int *out, int n) {
+    std::vector<int> pred(1), nb(1);
+    for (int i = 1; i < n; ++i) {
+      pred[0] = 0;
+      for (int j = 0; j < 2; ++j) { ps_Neighbour(i - j, out, nb.data()); pred[0] += nb[0]; }
+      pred[0] /= 2;
+      t.ComputeOriginalValue(pred.data(), corr + i, out + i);
+    }
+    return true;
+  }
+};
+// good pair: same arithmetic, different structure (helper on one side, local accumulator on the other)
+struct ps_GoodPredictionSchemeEncoder {
+  ps_Transform t;
+  int Average(const int *in, int i) const {
+    int nb[1]; int acc = 0;
+    for (int j = 0; j < 2; ++j) { ps_Neighbour(i - j, in, nb); acc += nb[0]; }
+    return acc / 2;
+  }
+  bool ComputeCorrectionValues(const int *in, int *corr, int n) {
+    for (int i = n - 1; i > 0; --i) {
+      const int pred = Average(in, i);
+      t.ComputeCorrection(in + i, &pred, corr + i);
+    }
+    return true;
+  }
+};
+struct ps_GoodPredictionSchemeDecoder {
+  ps_Transform t;
+  bool ComputeOriginalValues(const int *corr, int *out, int n) {
+    std::vector<int> pred(1), nb(1);
+    for (int i = 1; i < n; ++i) {
+      pred[0] = 0;
+      for (int j = 0; j < 2; ++j) { ps_Neighbour(i - j, out, nb.data()); pred[0] += nb[0]; }
+      pred[0] /= 2;
+      t.ComputeOriginalValue(pred.data(), corr + i, out + i);
+    }
+    return true;
+  }
+};
+}  // namespace verif_control
+
+// ---- SIBLING-FAIL control: the encoder survives a helper failure the decoder does not ------------------
+namespace verif_control {
+bool ps_Predict(int i, const int *data, int *out);
+struct ps_FailPredictionSchemeEncoder {
+  ps_Transform t;
+  bool ComputeCorrectionValues(const int *in, int *corr, int n) {
+    int pred[1];
+    for (int i = n - 1; i > 0; --i) {
+      if (!ps_Predict(i, in, pred)) {
+        t.ComputeCorrection(in + i, in + i - 1, corr + i);
+        continue;
+      }
+      t.ComputeCorrection(in + i, pred, corr + i);
+    }
+    return true;
+  }
+};
+struct ps_FailPredictionSchemeDecoder {
+  ps_Transform t;
+  bool ComputeOriginalValues(const int *corr, int *out, int n) {
+    int pred[1];
+    for (int i = 1; i < n; ++i) {
+      if (!ps_Predict(i, out, pred)) return false;
+      t.ComputeOriginalValue(pred, corr + i, out + i);
+    }
+    return true;
+  }
+};
+}  // namespace verif_control
